@@ -33,7 +33,7 @@ CLAIMED["C07"] = (
 CLAIMED["C08"] = (
     "model_checking",
     "BFS over timed traces of the real PeerFsm under a virtual-time interpretation of its timer outputs, interval-reference oracle in every state",
-    "For all 49 (local, remote) hold-time pairs from {0,3,4,10,90,180,65535} every timed trace up to the depth bound (connect, OPEN, fire-earliest-timer, advance 0 / 1 / h/3 / h-1 / h seconds then KEEPALIVE / UPDATE / ROUTE-REFRESH received or UPDATE sent) is executed on the real PeerFsm; in every state the armed hold deadline must equal last-received + min(local,remote), the keepalive deadline last-sent + h/3, ROUTE-REFRESH and sends must not re-arm the hold timer, and with a negotiated value of zero no timer may be armed, no expiry and no timer-driven KEEPALIVE may occur.",
+    "For all 49 (local, remote) hold-time pairs from {0,3,4,10,90,180,65535} every timed trace up to the depth bound (connect, OPEN, fire-earliest-timer, advance 0 / 1 / h/3 / h-1 / h seconds then KEEPALIVE / UPDATE / ROUTE-REFRESH received or UPDATE sent) is executed on the real PeerFsm; in every state the armed hold deadline must equal last-received + min(local,remote), the keepalive deadline last-sent + h/3, ROUTE-REFRESH and sends must not re-arm the hold timer, and with a negotiated value of zero no timer may be armed, no expiry and no timer-driven KEEPALIVE may occur. Driver binding: every timer value the FSM emitted is armed through the real PeerSession::apply_outputs and flush_tx and the pending sleep read back; the bytes of ten message kinds (KEEPALIVE, UPDATEs incl. AS-looped / attributes-only / treat-as-withdraw-with-nothing-to-withdraw, ROUTE-REFRESH) arrive on the socket of an Established session, the real run_select handles them and the hold deadline must be re-armed by exactly the KEEPALIVE / UPDATE kinds; 3 (thorough 6) jitter-gated real-time runs.",
     "The timer semantics of the I/O driver are modelled (Set*Timer(n) replaces the pending sleep with now+n; hold served before keepalive before received messages), read off PeerSession::apply_outputs / run_select; real-time behaviour below one second is out of scope.",
     "DESIGN.md §5 C08",
 )
@@ -57,14 +57,14 @@ CLAIMED["C10"] = (
 CLAIMED["C01"] = (
     "model_checking",
     "explicit-state BFS over the real export pipeline with a LIVE observing session (PeerSession::run over loopback TCP), differential oracle against a brand-new session on a replica daemon",
-    "Every history up to the depth bound of announce / withdraw / peer-down (with and without GR) / LLGR start / stale purge / next-hop flap / export-policy swap / soft_reset_out / ROUTE-REFRESH events from two peers, the local source and the neighbour itself, with an explicit sync op controlling when the observing session delivers and flushes (batched vs one-by-one delivery), is executed against the real TableManager + PeerSession::run + process_nlri_change + PendingTx + flush_tx + encoder; at every sync the neighbour's mirror Adj-RIB-In decoded from the received bytes must equal the mirror of a brand-new session with identical parameters from the same address on a replica daemon rebuilt by replaying the RIB ops, and contain only prefixes the RIB still has. Configurations: observer role (eBGP, iBGP, RR client, RS client), add-path send-max 1/2, 1/2 shards, op packs for destination-id re-use, multi-source/best-change/add-path window, GR/LLGR + policy, and late-observer packs in which the neighbour's session comes up in the middle of a history and is held (cfg-guarded gate after on_established) with its initial dump buffered, so that the following changes are delivered before its first flush. The canonical state contains the RIB, the neighbour's mirror and the change events queued since the last sync (read from a second listener on the TableManager's stream). Focused small packs at one more level of depth: add-path with next-hop flaps on the best / non-best path, add-path and plain with an export policy that starts / stops rejecting a path inside the window. Schedule part: stateless exploration (baton scheduler, all schedules with <= 3 preemptions, thorough: all interleavings) of session establishment - register_peer's per-shard initial dump + channel registration - against concurrent withdraw / announce / replace / peer drop on both shards; fold(dump, delivered changes) must equal the Loc-RIB.",
+    "Every history up to the depth bound of announce / withdraw / peer-down (with and without GR) / LLGR start / stale purge / next-hop flap / export-policy swap / soft_reset_out / ROUTE-REFRESH events from two peers, the local source and the neighbour itself, with an explicit sync op controlling when the observing session delivers and flushes (batched vs one-by-one delivery), is executed against the real TableManager + PeerSession::run + process_nlri_change + PendingTx + flush_tx + encoder; at every sync the neighbour's mirror Adj-RIB-In decoded from the received bytes must equal the mirror of a brand-new session with identical parameters from the same address on a replica daemon rebuilt by replaying the RIB ops, and contain only prefixes the RIB still has. Configurations: observer role (eBGP, iBGP, RR client, RS client; thorough also a confederation neighbour), add-path send-max 1/2, 1/2 shards, op packs for destination-id re-use, multi-source/best-change/add-path window, GR/LLGR + policy, and late-observer packs in which the neighbour's session comes up in the middle of a history and is held (cfg-guarded gate after on_established) with its initial dump buffered, so that the following changes are delivered before its first flush. The canonical state contains the RIB, the neighbour's mirror and the change events queued since the last sync (read from a second listener on the TableManager's stream). A soft_reset_out whose handling is HELD (cfg-guarded gate before each peer event is handled) until the next sync, so that the refresh walks a RIB that is ahead of the changes queued behind it (pack refresh-ahead); a restarting-speaker pack (selection deferral from before the first route, prefixes on two shards). soft_reset_out / ROUTE-REFRESH otherwise wait on a KEEPALIVE barrier, so when a refresh is handled is a harness choice, never a race. Focused small packs at one more level of depth: add-path with next-hop flaps on the best / non-best path, add-path and plain with an export policy that starts / stops rejecting a path inside the window. Schedule part: stateless exploration (baton scheduler, all schedules with <= 3 preemptions, thorough: all interleavings) of session establishment - register_peer's per-shard initial dump + channel registration - against concurrent withdraw / announce / replace / peer drop on both shards; fold(dump, delivered changes) must equal the Loc-RIB.",
     "In the BFS part producers are serialised (direct TableManager calls; shard locks make them atomic); the race between session establishment and RIB changes is explored by the schedule part. The bytes are decoded with the repository's parser under the neighbour's codec. An export-policy change is always followed by a soft reset / route refresh before views are compared. TCP partial writes are not varied. Two add-path re-advertisement defects are recorded as known findings.",
     "DESIGN.md §5 C01",
 )
 CLAIMED["C16"] = (
     "model_checking",
-    "explicit-state BFS over connect/disconnect/enable/disable/delete histories against the real accept_connection + session tasks; bounded-exhaustive enumeration of capability-list pairs through negotiate / PeerFsm / negotiate_gr",
-    "(i) All histories up to the depth bound of TCP connects (passive and active role; from the static neighbour's address, an address inside a dynamic prefix, another address), disconnects, enable / disable / delete, for 3 configurations (static only with prefix limit; admin-down static + route-server dynamic group with GR and hold time; overlapping dynamic prefixes + RR-client group + confederation): admission verdict of accept_connection, nothing written before a refusal, role / hold time / local AS / families / GR capability / prefix limits of the session as seen in the OPEN it sends, Global.peers and connection slots after every step (dynamic neighbours disappear with their last connection). (ii) Every ordered pair of capability lists from two complete menus (per-family absent / MP / add-path modes 0-4, conflicting duplicate add-path entries, AS4, extended message, unknown capability; GR flag/family lists x LLGR lists) goes through OPEN encode->decode and PeerCodec::negotiate in both directions: mirror-image families / add-path directions / extended message / AS width, PeerFsm's effective send-max vs the codec, GR / LLGR / N-bit in force iff both advertised.",
+    "explicit-state BFS over connect/disconnect/unacceptable-OPEN/enable/disable/delete/reset/UpdatePeer histories against the real accept_connection + session tasks + gRPC handlers; bounded-exhaustive enumeration of capability-list pairs through negotiate / PeerFsm / negotiate_gr",
+    "(i) All histories up to the depth bound of TCP connects (passive and active role; from the static neighbour's address, an address inside a dynamic prefix, another address), disconnects, an OPEN the message decoder refuses, enable / disable / delete / hard reset / UpdatePeer (teardown-relevant and not) through the REAL gRPC handlers, for 4 configurations (static only with prefix limit; admin-down static + route-server dynamic group with GR and hold time; overlapping dynamic prefixes + RR-client group + confederation): admission verdict of accept_connection, nothing written before a refusal, role / hold time / local AS / families / GR capability / prefix limits of the session as seen in the OPEN it sends, Global.peers and connection slots after every step (dynamic neighbours disappear with their last connection), and every admin operation that tears sessions down must have delivered its close request through the arbiter each live session was registered with. (ii) Every ordered pair of capability lists from two complete menus (per-family absent / MP / add-path modes 0-4, conflicting duplicate add-path entries, AS4, extended message, unknown capability; GR flag/family lists x LLGR lists) goes through OPEN encode->decode and PeerCodec::negotiate in both directions: mirror-image families / add-path directions / extended message / AS width, PeerFsm's effective send-max vs the codec, GR / LLGR / N-bit in force iff both advertised.",
     "Overlapping dynamic prefixes: any matching group is accepted (the statement requires a matching prefix, not a priority). codec/FSM lists and GR/LLGR lists are enumerated as two independent products because negotiate() never reads GR/LLGR and negotiate_gr/llgr read nothing else. Sessions are not driven beyond the daemon's OPEN in part (i).",
     "DESIGN.md §5 C16",
 )
@@ -79,7 +79,7 @@ CLAIMED["C18"] = (
 CLAIMED["C02"] = (
     "model_checking",
     "bounded-exhaustive enumeration of path sets in every arrival order plus explicit-state BFS over single-prefix histories of the real Table, against a reference comparator written from the statement",
-    "All ordered pairs of a 1152-kind IPv4 product and a 640-kind EVPN product (2 colliding values per decision step: LLGR-stale flag/community, LOCAL_PREF, 9 AS_PATH shapes up to 510 hops, ORIGIN, 5 roles, GR-stale, CLUSTER_LIST, router-id/ORIGINATOR_ID incl. complete ties, eligibility, MAC mobility alone / embedded among other EVPN extended communities / absent while other EVPN communities are present) and triples over a cover, each inserted in every arrival order into a real Table; BFS over 7 packs of histories (insert/replace/remove/drop/restale/restale_llgr/purges/next-hop flips with session restarts). After every insert/step: ranked list sorted by the reference and containing exactly the eligible paths, best is reference-maximal, ecmp_paths is the tie prefix, Global and RsLocal views agree, result equals a from-scratch table of the current path set. Both dev (overflow checks) and release profiles.",
+    "All ordered pairs of a 1152-kind IPv4 product and a 640-kind EVPN product (2 colliding values per decision step: LLGR-stale flag/community, LOCAL_PREF, 9 AS_PATH shapes up to 510 hops, ORIGIN, 5 roles, GR-stale, CLUSTER_LIST, router-id/ORIGINATOR_ID incl. complete ties, eligibility, MAC mobility alone / embedded among other EVPN extended communities / absent while other EVPN communities are present) and triples over a cover, each inserted in every arrival order into a real Table; BFS over 8 packs of histories (insert/replace/remove/drop/restale/restale_llgr/purges/next-hop flips with session restarts; one pack with selection deferral started / ended around next-hop flips). After every insert/step: ranked list sorted by the reference and containing exactly the eligible paths, best is reference-maximal, ecmp_paths is the tie prefix, Global and RsLocal views agree, result equals a from-scratch table of the current path set. Both dev (overflow checks) and release profiles.",
     "Table API level only (the daemon's use of the ranking is C01/C20). Both readings of MAC-mobility present-vs-absent accepted. Built by a helper sub-agent from DESIGN §5 C02; reviewed through its findings (6 defects, all repaired).",
     "DESIGN.md §5 C02",
 )
@@ -93,7 +93,7 @@ CLAIMED["C03"] = (
 CLAIMED["C04"] = (
     "exploration",
     "bounded-exhaustive enumeration of messages x capability pairs through the real encoder, independent frame walker + peer-side decode as oracle",
-    "OPEN (every capability kind, 0-19 families, capability lists crossing 255 bytes), UPDATE reach/unreach/EoR for all 19 families with entry counts 0,1,2,k-1,k,k+1,2k,3k+1 around the measured frame capacity k, min/max NLRI sizes, attribute-block size ladder up to the frame limit, every NOTIFICATION variant, KEEPALIVE, ROUTE-REFRESH; capability pairs: 32 pairs reaching every negotiated outcome (incl. add-path send-only / receive-only) everywhere, all 1024 pairs on 4 families (thorough). Oracle: every frame within the negotiated maximum with mutually consistent length fields (independent walker), Ok(count) = frames seen, multiset of (prefix, path-id) / next hop / attributes decoded by the peer's codec equals the input modulo the documented canonicalisation, decode(encode(decode)) fixed point; dev and release profiles.",
+    "OPEN (every capability kind, 0-19 families, capability lists crossing 255 bytes), UPDATE reach/unreach/EoR for all 19 families with entry counts 0,1,2,k-1,k,k+1,2k,3k+1 around the measured frame capacity k, min/max NLRI sizes, attribute-block size ladder up to the frame limit, an attribute set as the decoder hands it on after RECEIVING optional attributes with the Extended Length bit on short values (relay), every NOTIFICATION variant, KEEPALIVE, ROUTE-REFRESH; capability pairs: 32 pairs reaching every negotiated outcome (incl. add-path send-only / receive-only) everywhere, all 1024 pairs on 4 families (thorough). Oracle: every frame within the negotiated maximum with mutually consistent length fields (independent walker), Ok(count) = frames seen, multiset of (prefix, path-id) / next hop / attributes decoded by the peer's codec equals the input modulo the documented canonicalisation, decode(encode(decode)) fixed point; dev and release profiles.",
     "NLRI content of flowspec / LS / MUP / SR-policy is read with the repository's decoder (framing and attributes are independent for all families). Three capability-length signatures (RFC 9072 needed) are known findings. Built by helper sub-agents (generators + oracle).",
     "DESIGN.md §5 C04",
 )
@@ -128,21 +128,21 @@ CLAIMED["C13"] = (
 CLAIMED["C14"] = (
     "model_checking",
     "bounded-exhaustive enumeration of policy programs x routes against a reference interpreter, plus explicit-state BFS over policy CRUD histories",
-    "Prefix sets: all sets of <= 2 entries over an embedded space (nested, overlapping, sibling, zero prefix, ranges excluding the entry's own length, entries longer than the route) x ANY/INVERT x all routes, v4 and v6; AS-path sets: every single-pattern form + a regex probe x ANY/ALL/INVERT x all AS_PATHs of <= 2 segments of every type incl. empty segments; community / ext-community / large-community sets x options x lists of <= 2 values; scalar conditions at/below/above; chaining of statements (condition x disposition x action), policies of <= 2 statements, assignments of <= 2 policies, both defaults, import and export (1.27e7 evaluations quick, 1.45e8 thorough): disposition + attributes + next hop equal the reference, no panic in dev or release. CRUD: BFS depth 5 (thorough 6) over add / replace / delete of sets, statements, policies, assignments (names from pools of 2; global import/export + one per-peer export): referential integrity of everything a user holds, StillInUse for referenced objects.",
+    "Prefix sets: all sets of <= 2 entries over an embedded space (nested, overlapping, sibling, zero prefix, ranges excluding the entry's own length, entries longer than the route) x ANY/INVERT x all routes, v4 and v6; AS-path sets: every single-pattern form + a regex probe x ANY/ALL/INVERT x all AS_PATHs of <= 2 segments of every type incl. empty segments; community / ext-community / large-community sets x options x lists of <= 2 values; scalar conditions at/below/above; chaining of statements (condition x disposition x action), policies of <= 2 statements, assignments of <= 2 policies, both defaults, import and export (1.27e7 evaluations quick, 1.45e8 thorough): disposition + attributes + next hop equal the reference, no panic in dev or release. CRUD: BFS depth 5 (thorough 6) over add / replace / delete of sets, statements, policies, assignments (names from pools of 2; global import/export + one per-peer export): referential integrity of everything a user holds, StillInUse for referenced objects, needs_rpki flag of every assignment, and the CONTENT of every defined set = what its accepted add / replace / delete calls add up to (compared as member sets with a fresh table given that content in one call).",
     "Three readings of AS-path matching on odd paths (GoBGP sequence-list, flat, per-segment) accepted. Non-IPv4/6 NLRI in prefix conditions and ext/large-community actions not covered. Built by a helper sub-agent; 7 defects found and repaired.",
     "DESIGN.md §5 C14",
 )
 CLAIMED["C19"] = (
     "exploration",
     "bounded-exhaustive enumeration of monitored events through the real BMP/MRT encoders (packet level) and the daemon's converters with live sessions (daemon level), independent structural readers as oracle",
-    "Packet level: BMP PeerUp (v4/v6 address combinations x OPENs from the capability ladder), PeerDown (each reason), RouteMonitoring (every family, add-path, attribute blocks up to > 4096 bytes, entry counts beyond one frame, next-hop kinds, pre/post policy, Adj-RIB-Out, Loc-RIB flags), Initiation / Termination; MRT BGP4MP(_AS4)(_ADDPATH)(_LOCAL) for all address combinations, TABLE_DUMP_V2 peer index with 0-3 peers and RIB records with 0-3 entries (44 043 records quick, 195 835 thorough, dev and release). Daemon level: 2650 table-driven scenarios through a loopback BMP station and the MRT dumper plus 96 (thorough 288) live sessions comparing PeerUp with the OPENs really exchanged. Oracle: RFC 7854 / 8671 / 9069 / 6396 / 8050 readers written from the RFCs: header length = bytes that follow, address-family flags match the addresses, exactly one BGP PDU per record that parses (with the record's add-path / AS width) to the monitored prefixes / attributes / next hop, peer indexes and entry counts consistent.",
+    "Packet level: BMP PeerUp (v4/v6 address combinations x OPENs from the capability ladder), PeerDown (each reason), RouteMonitoring (every family, add-path, attribute blocks up to > 4096 bytes, entry counts beyond one frame, next-hop kinds, pre/post policy, Adj-RIB-Out, Loc-RIB flags), Initiation / Termination; MRT BGP4MP(_AS4)(_ADDPATH)(_LOCAL) for all address combinations, TABLE_DUMP_V2 peer index with 0-3 peers and RIB records with 0-3 entries (44 043 records quick, 195 835 thorough, dev and release). Daemon level: 2659 table-driven scenarios (three single-stack peers and the IPv6 session of a dual-stack neighbour sharing AS and BGP identifier with its IPv4 session) through a loopback BMP station and the MRT dumper plus 96 (thorough 288) live sessions comparing PeerUp with the OPENs really exchanged. Oracle: RFC 7854 / 8671 / 9069 / 6396 / 8050 readers written from the RFCs: header length = bytes that follow, address-family flags match the addresses, exactly one BGP PDU per record that parses (with the record's add-path / AS width) to the monitored prefixes / attributes / next hop, peer indexes and entry counts consistent.",
     "PeerDown for hold-timer expiry / FSM error / admin shutdown, Adj-RIB-Out content against a second peer, MRT rotation not covered. Built by a helper sub-agent; 5 defects found and repaired.",
     "DESIGN.md §5 C19",
 )
 CLAIMED["C20"] = (
     "model_checking",
     "explicit-state BFS over the real TableManager with the kernel request tap, fold-of-requests oracle in every state",
-    "15 packs (thorough 16) of histories, each complete to depth 5 (thorough 7; the full 68-op alphabet to depth 3/4): insert / replace / remove from eBGP and iBGP peers, local and kernel sources with tying and non-tying attributes and two next hops, session loss with drop / GR-stale / mixed / LLGR-only families and reconnect with a new Source, stale and LLGR purges, soft_reset_in under import policies (reject; hand-built next-hop rewrite), next-hop reachability flips, VRFs with matching and non-matching import targets, two VRFs, two RDs sharing an inner prefix; 1 and 2 shards. After every step the drained request stream is folded: Apply per (table, prefix) equals the next-hop set of the best path and the paths tied before the router-id step (nothing without an eligible path), the same in every VRF whose import targets match; register - unregister per address equals the number of peer-learned paths using it and never goes negative; unreachable next hops exclude their paths.",
+    "19 packs (thorough 20) of histories, each complete to depth 5 (thorough 7; the full 68-op alphabet to depth 3/4): insert / replace / remove from eBGP and iBGP peers, local and kernel sources with tying and non-tying attributes and two next hops, session loss with drop / GR-stale / mixed / LLGR-only families and reconnect with a new Source, stale and LLGR purges, soft_reset_in under import policies (reject; hand-built next-hop rewrite), next-hop reachability flips, VRFs with matching and non-matching import targets, two VRFs, two RDs sharing an inner prefix, a restarting-speaker pack (selection deferral around announcements and reachability reports; the FIB is compared again once the deferral has ended), a pack with a per-session prefix limit of 1 that trips; 1 and 2 shards. After every step the drained request stream is folded: Apply per (table, prefix) equals the next-hop set of the best path and the paths tied before the router-id step (nothing without an eligible path), the same in every VRF whose import targets match; register - unregister per address equals the number of peer-learned paths using it and never goes negative; unreachable next hops exclude their paths.",
     "Both 'best by the C02 reference order' and 'the path the RIB ranks first' accepted for the FIB clause (ranking disputes stay with C02). The netlink side and the schedule race between insert_route's early nexthop_invalid load and a concurrent flip are out of scope. Three signatures (one inner prefix imported from two RDs into one VRF) are known findings. Built by a helper sub-agent; 2 defects repaired.",
     "DESIGN.md §5 C20",
 )
